@@ -513,6 +513,127 @@ def r03_1(prog, rep, rid='R03.1'):
 
 
 # ------------------------------------------------------------------------------
+# R03.12  the credit is reached whenever the debit was
+#
+def _guard_reads(e, once, depth=3):
+    """what a test / an amount looks at: access paths, names (once-bound
+    locals expanded to what they were bound to) and string keys"""
+    out = set()
+    for x in walk(e):
+        if isinstance(x, (ast.Subscript, ast.Attribute)):
+            out.add(unparse(x))
+        elif isinstance(x, ast.Name):
+            if x.id in once and depth:
+                out |= _guard_reads(once[x.id], once, depth - 1)
+            else:
+                out.add(x.id)
+        elif isinstance(x, ast.Constant) and isinstance(x.value, str):
+            out.add(repr(x.value))
+    return out
+
+
+def r03_12(prog, rep, rid='R03.12'):
+    rep.rule(rid, '_change_slot_states: the FREE-direction credit of a '
+             'quantity runs under no condition the BUSY-direction debit of '
+             'the same quantity does not also run under (other than the '
+             'direction itself and tests of the very amount)', minimum=2)
+    free, busy, down = consts(prog)
+    base, classes = sched_classes(prog)
+    seen = set()
+    for K in classes:
+        f = prog.find_method(K, '_change_slot_states')
+        if f is None or id(f) in seen:
+            continue
+        seen.add(id(f))
+        rep.saw(f)
+        g = cfg_of(f)
+        smap = I.stmt_node_map(g)
+        params = [p for p in f.params if p != 'self']
+        if len(params) < 2:
+            raise AnalysisError('UNRECOGNISED-IDIOM %s: parameters' % f.where)
+        state = params[1]
+        inh = _in_handlers(f.node)[0]
+        sg = _Signed(prog, f, g, state, free, busy)
+        once = _once_bound_values(f.node, f.params)
+        augs = {}
+        for n in walk(f.node):
+            if id(n) in inh or id(n) not in smap:
+                continue
+            if isinstance(n, ast.AugAssign) and \
+                    isinstance(n.op, (ast.Add, ast.Sub)):
+                augs.setdefault(_norm_target(n.target), []).append(n)
+            elif isinstance(n, ast.Assign) and len(n.targets) == 1 and \
+                    isinstance(n.targets[0], (ast.Subscript, ast.Attribute)) \
+                    and sg.is_functional_update(n):
+                augs.setdefault(_norm_target(n.targets[0]), []).append(n)
+
+        def other_guards(n):
+            """guards of update n that are not the direction: {(text,
+            label): test ast}"""
+            out = {}
+            for k in guards(g, smap[id(n)].id):
+                a = g.nodes[k[0]].ast
+                if k in sg.edges or state in _guard_reads(a, once):
+                    continue
+                out[(unparse(a), k[1])] = a
+            return out
+
+        for tgt, lst in sorted(augs.items()):
+            deb, cre = [], []
+            for n in lst:
+                for pol, want, out in ((True, 'Sub', deb), (False, 'Add', cre)):
+                    if smap[id(n)].id not in sg.reach[pol]:
+                        continue
+                    r = sg.update(n, pol)
+                    if r is not None and r[0] == want:
+                        out.append((n, r[1]))
+            if not deb or not cre:
+                continue            # R03.1 reports the missing direction
+            for d, dmag in deb:
+                dg = other_guards(d)
+                known = set()
+                for a in dg.values():
+                    known |= _guard_reads(a, once)
+                amount = d.value if isinstance(d, ast.AugAssign) \
+                    else d.value.args[1]
+                known |= _guard_reads(amount, once)
+                best = None
+                for c, cmag in cre:
+                    if cmag != dmag:
+                        continue    # R03.1 reports the operand
+                    camount = c.value if isinstance(c, ast.AugAssign) \
+                        else c.value.args[1]
+                    ok_reads = known | _guard_reads(camount, once)
+                    extra = [(k, a) for k, a in sorted(other_guards(c).items())
+                             if k not in dg and
+                             not _guard_reads(a, once) <= ok_reads]
+                    if best is None or len(extra) < len(best[1]):
+                        best = (c, extra)
+                if best is None:
+                    continue
+                c, extra = best
+                rep.check(not extra, rid, f,
+                          '%s: the credit of %s is reached under the '
+                          'conditions of its debit' % (f.qual, tgt),
+                          construct='%s:%s:release-guard' % (f.qual, tgt),
+                          message='%s: `%s` (FREE) additionally depends on %s '
+                          'which `%s` (BUSY) does not depend on: a slot for '
+                          'which that test fails is debited on the grant and '
+                          'not credited on the release, so the release does '
+                          'not restore what was taken'
+                          % (f.qual, short(c, 50),
+                             ', '.join('`%s` being %s' % (
+                                 short(a, 30), 'true' if k[1] == 'T' else
+                                 'false') for k, a in extra), short(d, 50)),
+                          loc=f.loc(c),
+                          history='a task whose slot holds %s but fails the '
+                          'extra test (e.g. mem > 0 and lfs == 0) is granted '
+                          'and released: the node keeps the debit; after '
+                          'enough such tasks nothing asking for that quantity '
+                          'fits the idle pilot' % tgt)
+
+
+# ------------------------------------------------------------------------------
 # R03.2  grant key = release key
 #
 def r03_2(prog, rep, rid='R03.2'):
@@ -2281,7 +2402,8 @@ def run(prog, rep, tier):
         'resolved raising callee, helpers followed) after a write of the same '
         'slot without a roll-back on the way out (R03.7); signed / '
         'operator-valued spellings of the lfs/mem update are evaluated per '
-        'direction (R03.1); the contender that won the registry arbitration '
+        'direction (R03.1); the credit of a quantity runs under no slot '
+        'condition its debit does not run under (R03.12); the contender that won the registry arbitration '
         'in the Popen executor releases on every path that follows, also '
         'when the arbitration sits in a helper (R03.8); the node whose '
         'occupancy is written for a slot was selected by comparing its index '
@@ -2302,6 +2424,7 @@ def run(prog, rep, tier):
         'zmq pubsub delivers every published unschedule message once',
     ]
     rep.attempt(r03_1, prog, rep)
+    rep.attempt(r03_12, prog, rep)
     rep.attempt(r03_2, prog, rep)
     rep.attempt(r03_3, prog, rep)
     rep.rule('R04.4', 'a release is reported to the scheduler loop (first '
@@ -2495,9 +2618,17 @@ MUTATIONS = [
     dict(name='R03.11 lookup helper is given the slot and indexes by position (IndexError converted)', rules=('R03.11',), edits=[
         (_B, "            node = None\n            node_found = False\n            for node in self.nodes:\n                if node['index'] == slot['node_index']:\n                    node_found = True\n                    break\n\n            if not node_found:\n                raise RuntimeError('inconsistent node information')\n", '            node = self._node_of(slot)\n'),
         (_B, '    def slot_status(self, msg=None, uid=None):\n', "    def _node_of(self, slot):\n        idx = slot['node_index']\n        try:\n            return self.nodes[idx]\n        except IndexError:\n            raise RuntimeError('inconsistent node information')\n\n    def slot_status(self, msg=None, uid=None):\n")]),
+    dict(name='R03.12 mem credited only for slots with lfs (seed C03-k2)', rules=('R03.12',), edits=[
+        (_B, "            if slot['lfs']:\n                if new_state == rpc.BUSY:\n                    node['lfs'] -= slot['lfs']\n                else:\n                    node['lfs'] += slot['lfs']\n\n            if slot['mem']:\n                if new_state == rpc.BUSY:\n                    node['mem'] -= slot['mem']\n                else:\n                    node['mem'] += slot['mem']\n",
+             "            if new_state == rpc.BUSY:\n                if slot['lfs']: node['lfs'] -= slot['lfs']\n                if slot['mem']: node['mem'] -= slot['mem']\n\n            elif slot['lfs']:\n                node['lfs'] += slot['lfs']\n                if slot['mem']:\n                    node['mem'] += slot['mem']\n")]),
+    dict(name='R03.12 lfs credit skipped for slots with gpus', rules=('R03.12',), edits=[
+        (_B, "                else:\n                    node['lfs'] += slot['lfs']\n", "                elif not slot['gpus']:\n                    node['lfs'] += slot['lfs']\n")]),
 ]
 
 SILENT = [
+    dict(name='lfs/mem grouped by direction, each under the test of its own amount', edits=[
+        (_B, "            if slot['lfs']:\n                if new_state == rpc.BUSY:\n                    node['lfs'] -= slot['lfs']\n                else:\n                    node['lfs'] += slot['lfs']\n\n            if slot['mem']:\n                if new_state == rpc.BUSY:\n                    node['mem'] -= slot['mem']\n                else:\n                    node['mem'] += slot['mem']\n",
+             "            if new_state == rpc.BUSY:\n                if slot['lfs']: node['lfs'] -= slot['lfs']\n                if slot['mem']: node['mem'] -= slot['mem']\n\n            else:\n                if slot['lfs'] > 0:\n                    node['lfs'] += slot['lfs']\n                node['mem'] += slot['mem']\n")]),
     dict(name='pre-placed task counted after the start hand-on (same iteration)', edits=[
         (_B, '                    self._active_cnt += 1\n\n                    self.advance(task, rps.AGENT_EXECUTING_PENDING,\n                                 publish=True, push=True, fwd=True)\n                    continue\n', '\n                    self.advance(task, rps.AGENT_EXECUTING_PENDING,\n                                 publish=True, push=True, fwd=True)\n                    self._active_cnt += 1\n                    continue\n')]),
     dict(name='pre-placed task counted inside the try, the handler takes the count back', edits=[
